@@ -92,7 +92,10 @@ def blockquote(state: StateBlock, startLine: int, endLine: int, silent: bool) ->
 
     oldBSCount = [state.bsCount[startLine]]
     state.bsCount[startLine] = (
-        state.sCount[startLine] + 1 + (1 if spaceAfterMarker else 0)
+        state.bsCount[startLine]
+        + state.sCount[startLine]
+        + 1
+        + (1 if spaceAfterMarker else 0)
     )
 
     lastLineEmpty = pos >= max
@@ -216,7 +219,10 @@ def blockquote(state: StateBlock, startLine: int, endLine: int, silent: bool) ->
 
             oldBSCount.append(state.bsCount[nextLine])
             state.bsCount[nextLine] = (
-                state.sCount[nextLine] + 1 + (1 if spaceAfterMarker else 0)
+                state.bsCount[nextLine]
+                + state.sCount[nextLine]
+                + 1
+                + (1 if spaceAfterMarker else 0)
             )
 
             oldSCount.append(state.sCount[nextLine])
